@@ -1094,7 +1094,7 @@ macro_rules! impl_shifts {({$($rhs:ty),+}) => {
     $(
         impl<I: Integer, const N: usize> ShlAssign<$rhs> for Bvf<I, N> {
             fn shl_assign(&mut self, rhs: $rhs) {
-                let shift = usize::try_from(rhs).map_or(0, |s| s);
+                let shift = usize::try_from(rhs).map_or(usize::MAX, |s| s);
                 if shift == 0 {
                     return;
                 }
@@ -1155,7 +1155,7 @@ macro_rules! impl_shifts {({$($rhs:ty),+}) => {
 
         impl<I: Integer, const N: usize> ShrAssign<$rhs> for Bvf<I, N> {
             fn shr_assign(&mut self, rhs: $rhs) {
-                let shift = usize::try_from(rhs).map_or(0, |s| s);
+                let shift = usize::try_from(rhs).map_or(usize::MAX, |s| s);
                 if shift == 0 {
                     return;
                 }
